@@ -116,6 +116,9 @@ func (e *Exec) run() {
 		e.env[fv] = v
 		e.params[fv.Name()] = v
 		c.fact(c.allocFact(entry, v))
+		if v.S == SRef {
+			c.fact(fmt.Sprintf("(not (= %s nil))", v.T)) // a captured variable's cell always exists
+		}
 		_ = i
 	}
 	e.setupTracks()
@@ -841,7 +844,7 @@ func (e *Exec) execBlock(b *ssa.BasicBlock, st State) {
 			e.execUnOp(x, &st)
 		case *ssa.BinOp:
 			a, bb := e.val(x.X), e.val(x.Y)
-			e.env[x] = e.binop(x.Op, a, bb, x.X.Type(), x.Type(), &st, x.Pos())
+			e.env[x] = e.named(e.binop(x.Op, a, bb, x.X.Type(), x.Type(), &st, x.Pos()), "v")
 		case *ssa.Store:
 			p := e.val(x.Addr)
 			if p.Loc == nil {
@@ -873,7 +876,7 @@ func (e *Exec) execBlock(b *ssa.BasicBlock, st State) {
 			v.GT = x.Type()
 			e.env[x] = v
 		case *ssa.Convert:
-			e.env[x] = e.convert(e.val(x.X), x.X.Type(), x.Type(), &st)
+			e.env[x] = e.named(e.convert(e.val(x.X), x.X.Type(), x.Type(), &st), "cv")
 		case *ssa.TypeAssert:
 			e.execTypeAssert(x, &st)
 		case *ssa.Slice:
@@ -900,6 +903,8 @@ func (e *Exec) execBlock(b *ssa.BasicBlock, st State) {
 		case *ssa.MakeChan:
 			r := c.fresh("chan", SRef)
 			e.allocNew(&st, r)
+			c.compSort["$closed"] = "(Array Ref Bool)"
+			st.heap = c.hstore(st.heap, "$closed", r, "false")
 			e.env[x] = Val{T: r, S: SRef, GT: x.Type()}
 		case *ssa.Lookup:
 			e.execLookup(x, &st)
@@ -946,6 +951,17 @@ func (e *Exec) execBlock(b *ssa.BasicBlock, st State) {
 			e.unsupported("instruction %T: %s", ins, ins)
 		}
 	}
+}
+
+// named introduces a constant for a compound term (keeps terms small and E-matching reliable).
+func (e *Exec) named(v Val, prefix string) Val {
+	if v.Loc != nil || len(v.Tuple) > 0 || !strings.HasPrefix(v.T, "(") || strings.HasPrefix(v.T, "(_ bv") {
+		return v
+	}
+	n := e.c.fresh(prefix, v.S)
+	e.c.fact(fmt.Sprintf("(= %s %s)", n, v.T))
+	v.T = n
+	return v
 }
 
 func (e *Exec) allocNew(st *State, r string) {
@@ -1037,7 +1053,7 @@ func (e *Exec) execIndexAddr(x *ssa.IndexAddr, st *State) {
 	case *types.Slice:
 		et = u.Elem()
 		e.safety("index", st, and(c.le(c.idx(0), i), c.lt(i, fmt.Sprintf("(sl_len %s)", base.T))), "slice index in range", x.Pos())
-		ref = fmt.Sprintf("(elem (sl_arr %s) %s)", base.T, c.add(fmt.Sprintf("(sl_off %s)", base.T), i))
+		ref = fmt.Sprintf("(sidx %s %s)", base.T, i)
 	case *types.Pointer:
 		at := u.Elem().Underlying().(*types.Array)
 		et = at.Elem()
